@@ -211,6 +211,18 @@ fn build_response(req: &Message<Vec<u8>>, qname: &str, qtype: Rtype, flags: Flag
         RespClass::MiscError => *sim::pick("up.err_rcode", &[Rcode::SERVFAIL, Rcode::REFUSED, Rcode::FORMERR]),
         _ => Rcode::NOERROR,
     };
+    // An error whose code only shows in the OPT record's extended bits
+    // (BADVERS 16, 19, BADCOOKIE 23, 0xFF3): the header's four bits alone
+    // read NOERROR, NXDOMAIN, YXRRSET - it is a failure all the same and is
+    // kept no longer than one.
+    let ext_rcode: Option<u16> = if class == RespClass::MiscError && req.opt().is_some() && sim::chance("up.err_extended_rcode", 1, 3) { Some(*sim::pick("up.err_ext_rcode", &[16u16, 19, 23, 0xFF3])) } else { None };
+    let rcode = match ext_rcode {
+        Some(x) => {
+            sim::stat("probe.upstream_error_with_extended_rcode");
+            Rcode::masked_from_int((x & 0xf) as u8)
+        }
+        None => rcode,
+    };
     let mb = MessageBuilder::new_vec();
     let mut ab = mb.start_answer(req, rcode).expect("start_answer");
     ab.header_mut().set_ra(true);
@@ -260,6 +272,11 @@ fn build_response(req: &Message<Vec<u8>>, qname: &str, qtype: Rtype, flags: Flag
             if flags.dnssec_ok {
                 ab.push((&owner, Class::IN, Ttl::from_secs(ttl), sig(qtype, ttl))).unwrap();
             }
+        }
+        RespClass::MiscError if ext_rcode.is_some() && sim::chance("up.err_ext_with_answer", 1, 2) => {
+            // (with something in the answer section, as a positive answer has)
+            let ttl = ttl_draw("up.ttl");
+            push_data(&mut ab, &owner, ttl);
         }
         RespClass::CnameNoData => {
             let ttl = ttl_draw("up.ttl");
@@ -336,6 +353,9 @@ fn build_response(req: &Message<Vec<u8>>, qname: &str, qtype: Rtype, flags: Flag
         ad.opt(|o| {
             o.set_udp_payload_size(1232);
             o.set_dnssec_ok(flags.dnssec_ok);
+            if let Some(x) = ext_rcode {
+                o.set_rcode(domain::base::iana::OptRcode::masked_from_int(x));
+            }
             Ok(())
         })
         .unwrap();
@@ -373,7 +393,11 @@ fn validity_bound_s(u: &Upstream, cfg: &Cfg) -> u64 {
         return 0;
     }
     let mut bound = cfg.max_validity;
-    if v.rcode == Rcode::NOERROR {
+    // (the full twelve bits: an extended rcode is an error whatever its low
+    // four bits read)
+    if v.full_rcode > 0xf {
+        bound = bound.min(cfg.misc_error);
+    } else if v.rcode == Rcode::NOERROR {
         let has_answer = v.recs.iter().any(|r| r.section == 1 && r.rtype == u.qtype && r.class == Class::IN);
         if !has_answer {
             let soa = v.recs.iter().any(|r| r.section == 2 && r.rtype == Rtype::SOA);
